@@ -261,6 +261,17 @@ class Exec(common.BaseExec):
         REC.faults["helper_cnt_%d" % cnt] += 1
         if real_fit:
             REC.faults["helper_real_fit"] += 1
+            # the property quantifies over hyper-parameters in a well-conditioned range; a real
+            # L-BFGS fit on six random points can leave it (tiny lengthscales, huge output scales),
+            # where gpytorch's distance computation itself loses 1e-6..1e-4: stop judging then
+            hh = read_hyper(mod, self.kind)
+            ls = np.concatenate([np.ravel(x) for x in (hh["ls"] if isinstance(hh["ls"], list) else [hh["ls"]])])
+            osc = np.ravel(hh["os"]) if "os" in hh else np.diag(hh["B"])
+            if np.min(ls) < 0.1 or np.max(ls) > 10.0 or np.min(osc) < 1e-2 or np.max(osc) > 1e2:
+                REC.faults["real_fit_left_well_conditioned_range"] += 1
+                self.model = mod
+                self.dead = True
+                return
         self.model = mod
         self.hyper_applied = True
         self.held = self.held_from_model()
